@@ -156,6 +156,42 @@ def dup_tree_cases():
     return out
 
 
+def planning_empty(c):
+    """PlanningMixin with no planning variable declared (every control is the member's own): chosen from the
+    case itself, for a third of the cases that use the mixin"""
+    import random
+    uses = c["mode"] == "planning_only" or (c["mode"] == "tree" and c["planning"])
+    key = json.dumps({k: v for k, v in c.items() if not k.startswith("_")}, sort_keys=True, default=str)
+    return uses and random.Random(key).random() < 0.34
+
+
+def w_per_member(c):
+    return c["mode"] == "planning_only" or (c["mode"] == "tree" and c["planning"])
+
+
+def w_hist(c, m):
+    return Fraction(m + 1, 4) if w_per_member(c) else Fraction(1, 4)
+
+
+def box_problems(c, idx, lbx, ubx):
+    """every entry of every control of every member is boxed by the user's bounds; the entry at t0 is pinned to
+    that member's history value"""
+    out = []
+    want = {"u": (-3.0, 4.0), "w": (-2.0, 6.0)}
+    for var in ("u", "w"):
+        for m in range(c["E"]):
+            for pos, i in enumerate(idx[(var, m)]):
+                got = (float(lbx[i]), float(ubx[i]))
+                if pos == 0:
+                    h = 0.5 if var == "u" else float(w_hist(c, m))
+                    exp = (h, h)
+                else:
+                    exp = want[var]
+                if abs(got[0] - exp[0]) > 1e-12 or abs(got[1] - exp[1]) > 1e-12:
+                    out.append("control %s of member %d, entry %d: box %s, expected %s" % (var, m, pos, got, exp))
+    return out
+
+
 def tree_problem(c):
     from rtctools.optimization.control_tree_mixin import ControlTreeMixin
     from rtctools.optimization.planning_mixin import PlanningMixin
@@ -181,6 +217,10 @@ def tree_problem(c):
             "parameters": [], "ensemble_size": E, "theta": "1",
             "residual": [["-", ["v", "y"], ["+", ["+", ["v", "u"], ["v", "w"]], ["v", cins[0]]]]], "initial_residual": [],
             "param_values": [{} for _ in range(E)], "constant_input_values": vals}
+    # bounds on the controls and a history that pins them at t0: w per member where w is not shared at t0
+    spec["bounds"] = {"u": ["-3", "4"], "w": ["-2", "6"]}
+    spec["history"] = [{"u": {"times": ["-1", "0"], "values": ["0", "1/2"]},
+                        "w": {"times": ["-1", "0"], "values": ["0", str(w_hist(c, m))]}} for m in range(E)]
     if c.get("own_grid") and n >= 3:
         # control w lives on a coarser grid of its own (interpolated onto the collocation times)
         keep = [0] + [i for i in range(1, n - 1) if i % 2 == 0] + [n - 1]
@@ -196,7 +236,7 @@ def tree_problem(c):
     Base = problems.make_base(spec, tuple(mix))
 
     class P(Base):
-        planning_variables = ["u"]
+        planning_variables = [] if planning_empty(c) else ["u"]
 
         def control_tree_options(self):
             return {"forecast_variables": cins, "branching_times": [float(Fraction(b)) for b in c["bts"]], "k": c["kk"]}
@@ -227,6 +267,7 @@ def observe_tree(c):
     for r_, c_ in zip(rws, cls):
         deps.setdefault(int(r_), set()).add(int(c_))
     observe_tree.deps = deps
+    observe_tree.boxes = ([float(v) for v in lbx], [float(v) for v in ubx])
     return idx, branches, sidx, nx
 
 
@@ -354,7 +395,7 @@ def tree_property(c, idx, branches, nx):
                 if union != sorted(members):
                     problems_.append("children of %s do not partition it" % (path,))
         for var in ("u", "w"):
-            if c["planning"] and var != "u":
+            if c["planning"] and (var != "u" or planning_empty(c)):
                 continue
             for pos, i in enumerate(tix(c, var)):
                 L = segs[i]
@@ -442,6 +483,7 @@ def run(ctx):
             continue
         rows.append((c, idx, branches, sidx, nx))
         c["_deps"] = observe_tree.deps
+        c["_boxes"] = observe_tree.boxes
     tree_rows = [(r, dist_table(r[0])) for r in rows if r[0]["mode"] == "tree"]
     tree_rows = [(r, t) for r, t in tree_rows if t is not None]
     for r, t in tree_rows:
@@ -463,6 +505,8 @@ def run(ctx):
         ctx.count("k_%d" % c["kk"])
         probs = tree_property(c, idx, branches, nx)
         probs += row_isolation(E, idx, sidx, c.pop("_deps", {}))[:3]
+        lbx_, ubx_ = c.pop("_boxes")
+        probs += box_problems(c, idx, lbx_, ubx_)[:3]
         # states are never shared
         for a in range(E):
             for b in range(a + 1, E):
@@ -473,11 +517,13 @@ def run(ctx):
                 if any(idx[(var, m)] != idx[(var, 0)] for m in range(E)):
                     probs.append("default discretisation: control %s not shared by all members" % var)
         if c["mode"] == "planning_only" or (c["mode"] == "tree" and c["planning"]):
-            for a in range(E):
-                for b in range(a + 1, E):
-                    if set(idx[("w", a)]) & set(idx[("w", b)]):
-                        probs.append("planning: non-planning control w shared by members %d,%d" % (a, b))
-            if c["mode"] == "planning_only" and any(idx[("u", m)] != idx[("u", 0)] for m in range(E)):
+            own = ("w", "u") if planning_empty(c) else ("w",)
+            for var in own:
+                for a in range(E):
+                    for b in range(a + 1, E):
+                        if set(idx[(var, a)]) & set(idx[(var, b)]):
+                            probs.append("planning: control %s (not a planning variable) shared by members %d,%d" % (var, a, b))
+            if c["mode"] == "planning_only" and not planning_empty(c) and any(idx[("u", m)] != idx[("u", 0)] for m in range(E)):
                 probs.append("planning: planning variable u not shared")
         rep = {"case": c, "indices": {"%s/%d" % kk: v for kk, v in idx.items()},
                "branches": {str(kk): v for kk, v in (branches or {}).items()}}
@@ -500,7 +546,8 @@ def run(ctx):
             model_t = {kk: sorted(v) for kk, v in mt.items()}
             segs = seg_of_time(c)
             impl_classes = classes_from_indices(idx, E, n, "u")
-            cls_ok = all(impl_classes[i] == classes[segs[i]] for i in range(n))
+            # (with PlanningMixin and no planning variable declared, u does not follow the tree)
+            cls_ok = planning_empty(c) or all(impl_classes[i] == classes[segs[i]] for i in range(n))
             if impl_t != model_t or not cls_ok:
                 rep["model_tree"] = {str(kk): v for kk, v in mt.items()}
                 rep["broken_correspondence"] = "ControlTree.v tree / share_class vs control_tree_branches / control indices"
